@@ -538,6 +538,24 @@ func (g *gen) securityShapes() {
 		return sc
 	}
 	switch g.o.Index % 6 {
+	case 0, 1:
+		// an explicit request body that does not list the credential: the credential still travels in the
+		// implicit Authorization header (Body(func() { Attribute("note") }) / Body("note"))
+		if hdr == nil {
+			hdr = ensure("jwt")
+		}
+		m := g.plainMethod(s, "explicit_body")
+		m.HTTP.Verb = "POST"
+		m.Security = []Req{{Schemes: []string{hdr.Name}}}
+		g.credentials(m, m.Security)
+		m.Payload.Type.Object = append(m.Payload.Type.Object, &Field{Name: "note", Att: &Att{Type: &Type{Prim: "String"}}},
+			&Field{Name: "extra", Att: &Att{Type: &Type{Prim: "Int"}}})
+		if g.o.Index%6 == 0 {
+			m.HTTP.Body = &BodySpec{Attrs: []string{"note", "extra"}}
+		} else {
+			m.HTTP.Body = &BodySpec{Attr: "note"}
+			m.HTTP.Params = append(m.HTTP.Params, Mapped{Attr: "extra"})
+		}
 	case 2, 3:
 		// two schemes of ONE kind in a service: the Auther interface has one function per kind,
 		// the requirement chains name both schemes
